@@ -27,6 +27,7 @@ def fresh_bytes(ex, name, length_bv):
     if not hasattr(ex, "len_vars"):
         ex.len_vars = {}
     ex.len_vars[s.get_id()] = length_bv
+    ex.__dict__.setdefault("_keep_alive", []).append(s)   # ids key the table: the term must stay alive
     return Bytes(s)
 
 
@@ -451,3 +452,13 @@ def m_opcode_from_u8(ex, a, callee, canon):
     if ex.decide(ex.fresh("opcode_defined", z3.BoolSort())):
         return some(Enum("OpCodes", "OP_NOP", E["OP_NOP"]))
     return NONE()
+
+
+
+@model(r"^core::slice::<impl \[u8\]>::split_last$")
+def m_split_last_opaque(ex, a, callee, canon):
+    s = ex.bytes_of(a[0])
+    n = ex.seq_len(s)
+    if ex.decide(n == 0):
+        return NONE()
+    return some(Struct("tuple", [Ptr([Int(ex.fresh("last_byte", z3.BitVecSort(8)), "u8")], 0), Ptr([fresh_bytes(ex, "init", n - 1)], 0)]))
